@@ -608,6 +608,8 @@ def check(ck):
     # ---- C01.9 body reassembly on both sides (shared with C17.3) ---------------------------------------------------------
     from rules import c17
     common.import_rules(ck, c17, {"C17.3": "C01.9", "C17.9": "C01.9"})      # (and the request line: C17.9)
+    from rules import c02 as _c02b
+    common.import_rules(ck, _c02b, {"C02.6": "C01.9"})                       # (the backend emits ASCII only: every reply can be encoded and sent)
     ck.floor("C01.9", 11)
 
     # ---- C01.10 the caller's Config reaches every layer ---------------------------------------------------------------------
@@ -623,5 +625,5 @@ def check(ck):
     # ---- C01.12 the request pool executes every accepted request (shared with C09.2 / C10.7) -----------------------------
     from rules import c09 as _c09p, c10 as _c10p, common as _cmp
     _cmp.import_rules(ck, _c09p, {"C09.2": "C01.12"})
-    _cmp.import_rules(ck, _c10p, {"C10.7": "C01.12", "C10.3": "C01.12"})
+    _cmp.import_rules(ck, _c10p, {"C10.7": "C01.12", "C10.3": "C01.12", "C10.7b": "C01.12"})
     ck.floor("C01.12", 6)
